@@ -308,6 +308,10 @@ func (r *transport) handleCacheHit(
 	if ccReq.NoCache() || reqMaxAgeExceeded ||
 		(freshness.IsStale && ccResp.MustRevalidate()) ||
 		(hasRespNoCache && !isRespNoCacheQualified) {
+		if ccReq.OnlyIfCached() {
+			// RFC 9111 §5.2.1.7: never contact the origin; nothing usable is stored.
+			return make504Response(req)
+		}
 		goto revalidate
 	}
 
